@@ -30,11 +30,13 @@ def sh(cmd, env=None, cwd=None, timeout=3000):
 def main():
     d = os.path.abspath(sys.argv[1])
     sid = os.path.basename(d.rstrip('/'))
+    if '--tag' in sys.argv:
+        sid = sys.argv[sys.argv.index('--tag') + 1] + '-' + sid
     meta = json.load(open(os.path.join(d, 'meta.json')))
     if meta.get('failed'):
         print(sid, 'seeding agent gave up:', meta['failed'])
         return 2
-    prop = meta.get('property', sid[:3])
+    prop = meta.get('property', os.path.basename(d.rstrip('/'))[:3])
     if '--prop' in sys.argv:
         prop = sys.argv[sys.argv.index('--prop') + 1]
     wt = '/tmp/sw-' + sid
